@@ -11,7 +11,7 @@ use serde_json::{json, Value};
 pub const DEF: PropDef = PropDef {
     id: "C07",
     level: "exploration",
-    rule: "complete enumeration of: all strings <=4 over {a,b,é,comma,space,😀} x all delimiters <=2 over the same alphabet (plus none); all arrays of <=3 strings from a 4-string set with a non-string at each position, dictionary-only and empty arrays x 5 delimiters; all numeral strings <=3 (thorough <=4) over {0 1 9 a f F z - + . e space} x 35 radices; 33 boundary code points; 20 rounding boundaries x 4 direction spellings x 2 word orders; every wrong operand kind of U; each operation in up to 8 operand/destination forms (in place on variable / pronoun; into variable / subscript / pronoun from variable / pronoun / subscript / literal); after each operation the result AND the operand are observed element by element; expected from naive reference algorithms; non-trivial = judged; distinct = distinct program text",
+    rule: "complete enumeration of: all strings <=4 over {a,b,é,comma,space,😀} x all delimiters <=2 over the same alphabet (plus none); all arrays of <=3 strings from a 4-string set with a non-string at each position, dictionary-only and empty arrays x 5 delimiters; all numeral strings <=3 (thorough <=4) over {0 1 9 a f F z - + . e space é €} x 35 radices; 33 boundary code points; 20 rounding boundaries x 4 direction spellings x 2 word orders; every wrong operand kind of U; each operation in up to 8 operand/destination forms (in place on variable / pronoun; into variable / subscript / pronoun from variable / pronoun / subscript / literal); after each operation the result AND the operand are observed element by element; expected from naive reference algorithms; non-trivial = judged; distinct = distinct program text",
     assumptions: &["reference algorithms in refmodel/value.rs (left-to-right non-overlapping split, hand-written radix parser, char::from_u32, ceil/floor/half-up)", "negative rounding ties, exotic numerals (inf/nan/padded) are skipped as unspecified"],
     build,
     exhaustive: true,
